@@ -155,7 +155,7 @@ pub fn harness_main(
                 std::fs::write(&progress, format!("{pos} {id}\n")).unwrap();
                 // observations made before a panic are kept; the panic itself is an observation
                 let mut obs: Vec<String> = Vec::new();
-                // every case runs on a thread of its own (64 MiB stack): whatever the library might keep per
+                // every case runs on a thread of its own (8 MiB stack, like the main thread): whatever the library might keep per
                 // thread - a memo table, a scratch buffer (seeded change C20-r4m2: a thread-local Pascal table
                 // that is only damaged by a particular order of calls and healed by any n = 64 query) - starts
                 // fresh and is built up in the order of the case's own operations.  TBX_SAME_THREAD=1 restores
@@ -168,7 +168,7 @@ pub fn harness_main(
                     let exec_ref = &execute;
                     std::thread::scope(|s| {
                         std::thread::Builder::new()
-                            .stack_size(64 << 20)
+                            .stack_size(8 << 20)
                             .spawn_scoped(s, move || catch_unwind(AssertUnwindSafe(|| exec_ref(c, obs_ref))).is_err())
                             .expect("spawn case thread")
                             .join()
